@@ -208,6 +208,21 @@ func (c14) Generate(r *core.Rng, run int, tier string) *core.History {
 			h.Events = append(h.Events, core.Event{Ev: "func", Name: f.Name, Text: src, Key: kind, Args: calls})
 		}
 	}
+	if r.Bool(.5) {
+		// hand-written functions whose printed form is delicate (precedence, braces, signs, statement separation)
+		for k, n := 0, 1+r.Intn(3); k < n; k++ {
+			t := core.Pick(r, c14Tricky)
+			dup := false
+			for i := range h.Events {
+				if h.Events[i].Name == t.name {
+					dup = true
+				}
+			}
+			if !dup {
+				h.Events = append(h.Events, core.Event{Ev: "func", Name: t.name, Key: t.kind, Text: t.src, Args: t.calls})
+			}
+		}
+	}
 	if r.Bool(.15) {
 		// a named function whose saved line is several KB long (functions are never length limited)
 		terms := make([]string, 0, 1100)
@@ -224,13 +239,35 @@ func (c14) Generate(r *core.Rng, run int, tier string) *core.History {
 		lk := core.Pick(r, []string{"load-ext", "autoload"})
 		h.Events = append(h.Events, core.Event{Ev: "save", Key: sk})
 		if c == 0 && r.Bool(.2) {
-			h.Events = append(h.Events, core.Event{Ev: "corrupt", Key: core.Pick(r, []string{"truncate", "flip"}), N: int64(r.Intn(1 << 20))})
+			h.Events = append(h.Events, core.Event{Ev: "corrupt", Key: core.Pick(r, []string{"truncate", "flip", "garbage-line", "garbage-line"}), N: int64(r.Intn(1 << 20))})
 			lk = "autoload"
 		}
 		h.Events = append(h.Events, core.Event{Ev: "restart"}, core.Event{Ev: "load", Key: lk})
 	}
 	return h
 }
+
+var c14Tricky = []struct {
+	name, kind, src string
+	calls           []string
+}{
+	{"tl1", "func-lambda", `tl1 = (x, m1) => { {"k7": 3} + m1 }`, []string{`tl1(1, {"a": 2})`, `tl1(2, {})`}},
+	{"tl2", "func-lambda", `tl2 = (x, y) => { x > 1 && y > 1 }`, []string{`tl2(2, 3)`, `tl2(0, 3)`}},
+	{"tl3", "func-lambda", `tl3 = x => { 69 - (-(3 * x)) }`, []string{`tl3(4)`, `tl3(-2)`}},
+	{"tl4", "func-lambda", `tl4 = (a1, b1, c1) => { a1 - (b1 - c1) }`, []string{`tl4(9, 4, 2)`, `tl4(1, 2, 3)`}},
+	{"tl5", "func-lambda", `tl5 = x => { (y => y + x)(2) }`, []string{`tl5(5)`, `tl5(0)`}},
+	{"tl6", "func-named", `func tl6(x) { v := x * 2; (-v) > 3 }`, []string{`tl6(5)`, `tl6(-5)`}},
+	{"tl7", "func-lambda", `tl7 = x => { x = x + 1; x }`, []string{`tl7(1)`, `tl7(41)`}},
+	{"tl8", "func-named", `func tl8(n) { 129; 13850 + n }`, []string{`tl8(1)`, `tl8(2)`}},
+	{"tl9", "func-lambda", `tl9 = (x) => { if x > 2 { "big" } else { "small" } }`, []string{`tl9(1)`, `tl9(3)`}},
+	{"tl10", "func-lambda", `tl10 = x => { [x, x * 2][1] }`, []string{`tl10(4)`, `tl10(0)`}},
+	{"tl11", "func-named", `func tl11(a1, b1) { a1 / (b1 * 2) - a1 % (b1 % 7) }`, []string{`tl11(100, 3)`, `tl11(7, 9)`}},
+	{"tl12", "func-lambda", `tl12 = (x, y) => { x = y; x == 1 || y == 2 }`, []string{`tl12(0, 2)`, `tl12(0, 0)`}},
+	{"tl13", "func-named", `func tl13(x) { y := x; y++; ++y; y - -x }`, []string{`tl13(3)`, `tl13(0)`}},
+	{"tl14", "func-lambda", `tl14 = x => { {"a": x}.a + 1 }`, []string{`tl14(3)`, `tl14(9)`}},
+}
+
+var c14Garbage = []string{`zz9=(x,;,p)=>1`, `{`, `"unterminated`, `/* open comment`, `)))`, `zz9=1/0`, `zz9=1<<(0-1)`, `zz9="abc"[0-5:2]`, `zz9=unquote(`, `func (`, `zz9=[1,2`, "\x00\x01\x02"}
 
 const c14File = "st" // save("st") -> ./st.gr
 
@@ -431,7 +468,13 @@ func (c14) Execute(h *core.History) *core.Outcome {
 			}
 			pos := int(e.N) % len(data)
 			orig := strings.SplitAfter(string(data), "\n")
-			if e.Key == "truncate" {
+			if e.Key == "garbage-line" {
+				// a foreign line (what a bad block or a concurrent writer leaves) between two intact lines
+				k := int(e.N) % (len(orig) + 1)
+				g := c14Garbage[int(e.N/7)%len(c14Garbage)] + "\n"
+				data = []byte(strings.Join(orig[:k], "") + g + strings.Join(orig[k:], ""))
+				st.Fault("garbage_line_inserted")
+			} else if e.Key == "truncate" {
 				data = data[:pos]
 				st.Fault("torn_file_truncated")
 			} else {
